@@ -49,9 +49,13 @@ pub enum Bad {
     /// the same with acceptable arguments in front of the refused one
     PathBadArgLast(bool),
     EvalBadArgLast,
+    /// before the story's first continue: continue (three times) while one external is unbound
+    /// (it is unbound before and bound again afterwards, with the safety it had): refused
+    /// every time
+    ContUnbound,
 }
 
-const N_BAD: usize = 28;
+const N_BAD: usize = 29;
 
 fn bad_from(i: usize) -> Bad {
     match i % N_BAD {
@@ -82,7 +86,8 @@ fn bad_from(i: usize) -> Bad {
         24 => Bad::EvalBadArg,
         25 => Bad::PathBadArgLast(true),
         26 => Bad::PathBadArgLast(false),
-        _ => Bad::EvalBadArgLast,
+        27 => Bad::EvalBadArgLast,
+        _ => Bad::ContUnbound,
     }
 }
 
@@ -230,6 +235,28 @@ fn inject(h: &mut Host, b: &Bad) -> Option<(bool, bool)> {
             let name = h.meta.knots.iter().find(|k| k.contains('f')).cloned().unwrap_or(first_knot.clone());
             let mut out = String::new();
             Some((h.story.evaluate_function(&name, Some(&vec![v]), &mut out).is_err(), false))
+        }
+        Bad::ContUnbound => {
+            // only before the story's first continue: bindings are validated once (as in the
+            // reference runtime); an external unbound later fails when it is called instead
+            if !h.story.can_continue() || !h.trace.is_empty() {
+                return None;
+            }
+            // (an external with an Ink fallback of its name plays on: fallbacks are allowed here)
+            let name = h.bound.iter().find(|n| !h.meta.knots.contains(n)).cloned()?;
+            let safe = h.bound_safe.get(&name).copied().unwrap_or(true);
+            if h.story.unbind_external_function(&name).is_err() {
+                return None;
+            }
+            let first = h.story.cont().is_err();
+            let second = h.story.cont().is_err();
+            let third = h.story.continue_maximally().is_err();
+            let _ = h.story.bind_external_function(
+                &name,
+                Rc::new(RefCell::new(Ext { log: h.log.clone(), lines: h.lines.clone(), returns_value: true })),
+                safe,
+            );
+            Some((first && second && third, false))
         }
         Bad::PathBadArgLast(reset) => {
             let v = h.story.get_variable("zz_dt")?;
@@ -463,6 +490,9 @@ pub fn run(env: &Env) -> i32 {
                 let at = t.pick(ops.len() + 1);
                 let bad = bad_from(t.pick(N_BAD));
                 inject.push(json!({"at": at, "call": bad_to_json(&bad)}));
+            }
+            if !b.meta.externals.is_empty() && t.chance(1, 2) {
+                inject.push(json!({"at": 0, "call": bad_to_json(&Bad::ContUnbound)}));
             }
             let cfg = HostCfg {
                 handler: gc.hist.first().map(|v| v & 1 == 1).unwrap_or(false),
